@@ -43,3 +43,23 @@ Fixpoint process_tx (spend_always : bool) (fuel : nat) (mtu : Z) (buf credits rx
   end.
 
 Definition process_tx_fuel (credits : Z) : nat := Z.to_nat (Z.max credits 0 + 2).
+
+(* --- l2cap.py LeCreditBasedChannel.process_output, for one SDU being sent:
+     while self.credits > 0: packet = out_sdu[:peer_mps]; send; credits -= 1;
+                             if len(packet) == len(out_sdu): done else out_sdu = out_sdu[len(packet):]
+   [sdu] is the number of bytes of the SDU (header included) still to send, > 0 while an SDU
+   is in progress.  [credits_gt] = true is the code (loop while credits > 0); false is the
+   boundary variant "credits >= 0" kept for the refutation lemma. *)
+Fixpoint coc_output (credits_gt : bool) (fuel : nat) (mps sdu credits : Z) : option (Z * Z * Z) :=
+  (* -> (bytes left, credits left, PDUs sent) *)
+  match fuel with
+  | O => None
+  | S f =>
+      if (if credits_gt then 0 <? credits else 0 <=? credits) && (0 <? sdu) then
+        let packet := Z.min (Z.max mps 0) sdu in
+        match coc_output credits_gt f mps (sdu - packet) (credits - 1) with
+        | None => None
+        | Some (rest, c, n) => Some (rest, c, n + 1)
+        end
+      else Some (sdu, credits, 0)
+  end.
